@@ -114,6 +114,9 @@ func (w *World) Sync() bool {
 	return true
 }
 
+// SyncQuiet is Sync without the harness panic on time-out (for checks that expect wedges).
+func (w *World) SyncQuiet(max time.Duration) bool { return WaitGoroutines(w.base, max) }
+
 func WaitGoroutines(base int, max time.Duration) bool {
 	deadline := time.Now().Add(max)
 	for i := 0; ; i++ {
